@@ -178,6 +178,7 @@ class DynamicConcurrency:
         self._min_limit = min_limit
         self._max_limit = max_limit
         self._active = 0
+        self._limit_listeners: list = []
 
         logger.debug(
             "DynamicConcurrency created: initial=%d, min=%d, max=%s",
@@ -200,6 +201,13 @@ class DynamicConcurrency:
     def max_limit(self) -> int | None:
         """Maximum allowed limit (None = unlimited)."""
         return self._max_limit
+
+    def add_limit_listener(self, listener) -> None:
+        """Register ``listener(old_limit, new_limit)``, called after each change of the limit.
+
+        A server uses this to offer added capacity to work that is already queued.
+        """
+        self._limit_listeners.append(listener)
 
     def set_limit(self, new_limit: int) -> None:
         """Adjust the concurrency limit.
@@ -224,6 +232,9 @@ class DynamicConcurrency:
             clamped,
             new_limit,
         )
+        if clamped != old_limit:
+            for listener in self._limit_listeners:
+                listener(old_limit, clamped)
 
     def scale_up(self, amount: int = 1) -> None:
         """Increase the concurrency limit.
